@@ -9,8 +9,10 @@ After EVERY call the structural well-formedness predicate is evaluated over the 
 is stored in exactly one place and its index names that place; merged handles resolve to one container and see the same
 envelopes / subsystems / product spaces; member envelopes and stored subsystems point back to their composite; no product
 space is listed twice or left empty; destroyed subsystems are listed nowhere; and the objects of the unrelated composite
-envelope are the same objects with term-identical arrays (isolation).  The assertion is discrete; the solver's share is
-path feasibility (stated in the evidence)."""
+envelope are the same objects with term-identical arrays (isolation).  After purely structural calls (merge, combine,
+reorder) the joint state read through the indices equals the joint state held before (polynomial identities): a member
+list that does not match the tensor factors is an index that does not name the place.  Otherwise the assertion is
+discrete and the solver's share is path feasibility (stated in the evidence)."""
 from symx import checks
 from harness import common as cm
 
@@ -238,6 +240,7 @@ def scenario(B, case):
         # isolation: remember the objects of composites not involved in this call
         involved = _involved(W, act)
         before = _freeze(B, W, involved)
+        pre = snap
         try:
             _do(B, W, act)
         except ValueError as e:
@@ -249,6 +252,10 @@ def scenario(B, case):
         snap = W.snapshot()  # raises WFError (-> violation) when an index does not name a real place
         checks.check_wf(B, W, snap, label, unit=False, numeric=False)
         _handles_consistent(B, W, label)
+        if act[0] in ("merge", "merge-env", "rehandle", "combine", "reorder"):
+            # a purely structural call: the indices name the place where each subsystem is stored iff the joint state read
+            # through them (member list = tensor factors) is the joint state held before the call
+            checks.compare_unchanged(B, W, pre, snap, f"{label}: joint state read through the indices", observe=False)
         after = _freeze(B, W, involved)
         B.require_structural(before[0] == after[0], f"{label}: the unrelated composite envelope changed structurally: "
                                                     f"{before[0]} -> {after[0]}")
